@@ -68,7 +68,7 @@ var c09Exempt = map[string]string{
 func C09(p *ir.Program, r *report.R) {
 	c := C{p, r}
 	r.Floor = 90
-	r.Explain = "Decided (journal discipline): every write to a journaled location (Account.{Nonce,Credits,Balance,Tokens,CodeHash}, stateObject.{code,dirtyCode,suicided,dirtyStorage}, StateDB.{refund,logs,logSize,preimages,stateObjects}) is in a raw setter, a journal revert method, a listed constructor/copier/finaliser, or is preceded on every path by journal.append of the entry type paired with that location; every call of a raw setter likewise; the previous value captured by each append is the current value of the same location; every journalEntry implementation is in the pairing table and its revert writes exactly its locations from its prev fields; dirtied() returns the account iff the location is per-account; RevertToSnapshot/journal.revert shape (downward loop to the snapshot index, truncation). Deep copy: deepCopy/StateDB.Copy assign every field (exemptions listed) and no map/slice field of the copy is the source's own value. NOT decided: value-level equality over nested snapshot histories; trie-level copy independence (CopyTrie)."
+	r.Explain = "Decided (journal discipline): every write to a journaled location (Account.{Nonce,Credits,Balance,Tokens,CodeHash}, stateObject.{code,dirtyCode,suicided,dirtyStorage}, StateDB.{refund,logs,logSize,preimages,stateObjects}) is in a raw setter, a journal revert method, a listed constructor/copier/finaliser, or is preceded on every path by journal.append of the entry type paired with that location; every call of a raw setter likewise; the previous value captured by each append is the current value of the same location; every journalEntry implementation is in the pairing table and its revert writes exactly its locations from its prev fields; dirtied() returns the account iff the location is per-account; RevertToSnapshot/journal.revert shape (downward loop to the snapshot index, truncation). Deep copy: deepCopy/StateDB.Copy assign every field (exemptions listed) and no map/slice field of the copy is the source's own value. ADDED after seeded-change testing: Dirty reference counts: journal.dirties is written only by append/dirty (increment by one) and revert (decrement by one, delete only under count == 0 after the decrement). NOT decided: value-level equality over nested snapshot histories; trie-level copy independence (CopyTrie)."
 	r.Trusted = []string{"Database.CopyTrie", "big.Int values are replaced, never mutated in place (checked by K3 below for balances)"}
 
 	isEntry := func(t types.Type) bool { return false }
@@ -389,6 +389,52 @@ func C09(p *ir.Program, r *report.R) {
 			}
 		}
 		r.Check("K2", "state.(*journal).revert/truncate", p.Pos(jr.Pos()), okTr, "entries are truncated to the snapshot index")
+	}
+
+	// ---- dirty reference counts ---------------------------------------------------------------
+	// journal.dirties[addr] counts the live entries of addr; Finalise/Copy/Commit visit exactly
+	// the addresses with a positive count, so revert must decrement and delete only at zero.
+	{
+		dv := p.Field("state", "journal.dirties")
+		allowedW := map[string]bool{"state.(*journal).append": true, "state.(*journal).revert": true, "state.(*journal).dirty": true, "state.newJournal": true}
+		nInc, nDec, nDel := 0, 0, 0
+		for _, st := range p.Stores(dv) {
+			fn := ir.FuncName(ir.EnclosingTop(st.Fn))
+			if strings.HasSuffix(p.Pos(st.Fn.Pos()), "_test.go") {
+				continue
+			}
+			if !allowedW[fn] {
+				r.Check("K3", "dirty-count/who-may-write/"+fn, p.InstrPos(st.Instr), false, "journal.dirties is maintained only by journal.append/revert/dirty")
+				continue
+			}
+			switch st.Kind {
+			case "mapupdate":
+				mu := st.Instr.(*ssa.MapUpdate)
+				k, v := ir.Render(mu.Key), ir.Render(mu.Value)
+				switch fn {
+				case "state.(*journal).append", "state.(*journal).dirty":
+					nInc++
+					r.Check("K2", "dirty-count/"+fn+"/increments-by-one", p.InstrPos(st.Instr), v == "(j.dirties["+k+"] + 1)", "dirties["+k+"] = "+v)
+				case "state.(*journal).revert":
+					nDec++
+					r.Check("K2", "dirty-count/"+fn+"/decrements-by-one", p.InstrPos(st.Instr), v == "(j.dirties["+k+"] - 1)" && strings.Contains(k, "journalEntry.dirtied(j.entries[φ:i])"), "dirties["+k+"] = "+v)
+				}
+			case "mapdelete":
+				nDel++
+				call := st.Instr.(*ssa.Call)
+				k := ir.Render(call.Call.Args[1])
+				okZ := ir.HasFact(ir.FactsAt(st.Instr), "eq(j.dirties["+k+"],0) || le(j.dirties["+k+"],0)")
+				// the zero test must see the decremented count: a decrement of the same key precedes the delete
+				okDec := false
+				for _, st2 := range p.Stores(dv) {
+					if st2.Fn == st.Fn && st2.Kind == "mapupdate" && ir.Render(st2.Instr.(*ssa.MapUpdate).Key) == k && ir.Precedes(st2.Instr, st.Instr) {
+						okDec = true
+					}
+				}
+				r.Check("K1", "dirty-count/"+fn+"/delete-only-at-zero", p.InstrPos(st.Instr), okZ && okDec, "delete(j.dirties, "+k+") only after the decrement and under count == 0")
+			}
+		}
+		r.Check("K2", "dirty-count/shape", p.Pos(dv.Pos()), nInc >= 2 && nDec == 1 && nDel == 1, fmt.Sprintf("append and dirty increment (%d), revert decrements once per entry (%d) and deletes at zero (%d)", nInc, nDec, nDel))
 	}
 
 	// ---- deep copy ---------------------------------------------------------------------------
